@@ -40,7 +40,10 @@ CFG = dict(
                "pair of null dictionaries, the accumulator's count = number of pairwise-complete positions of the window, "
                "hence all 13 statistics are null below min_periods (axiom-free). Closed forms remain exact-real only. "
                "The model is tied to the code by the differential run, which now includes window 0 and unequal lengths "
-               "and compares which assertion fired.",
+               "and compares which assertion fired. "
+               "Second, static tie (translator): the min_periods shape of every entry point (Proofs/SrcTablesRoll.v) and, inside the closures, the guard that compares the count with min_periods, every comparison with EPS (ts_vcorr: both variances > EPS) and the aggregation the residual statistics end with (.vmean() / .vstd(2) / .vskew(3)) are re-extracted from the Rust source text on every run and proved to be the model's for every accumulator state (Proofs/SrcTablesAgg.v).",
+    src_tables=True,   # tools/gen_tables.py + Proofs/SrcTablesAgg.v: decision tables regenerated from the Rust source on every run
+    src_tables_proofs=["Proofs/SrcTablesRoll.vo", "Proofs/SrcTablesAgg.vo"],
     level_note="Trusted: Coq kernel + Reals axioms; the model of binary.rs / reg.rs / agg.rs (vmean, vmean_var, vskew); "
                "f64::mul_add modelled unfused (two roundings); IEEE rounding is outside the theorems (exact reals) and absorbed "
                "by the 1e-7 tolerance; f64::powi modelled as compiler-rt's square-and-multiply.",
